@@ -29,6 +29,11 @@ CLAIMED = {
             "photo x share x yield x rate recomputed from the public primitives; errors required below the edge / for unavailable inputs.",
             "primitives trusted (C01/C02); exact zero share accepts 0.0 with or without error; energies exactly on an edge are not generated",
             "DESIGN.md 2/C09"),
+    "C12": ("Hypothesis property-based testing over (E, theta, phi) with metamorphic/relational oracles (quadrature, azimuthal average, limits, symmetry) + full special-value grid",
+            "Eight relations between the public closed-form functions are checked on Hypothesis-generated energies (1e-6..1e6 keV, log-uniform) and "
+            "angles (+-4pi) and on the full grid of special values; failures are shrunk to a minimal (E, theta, phi).",
+            "Gauss-Legendre quadrature self-checked by node doubling (unconverged = inconclusive); libm shared with the library",
+            "DESIGN.md 2/C12"),
     "C10": ("exhaustive enumeration Z x group macro; reference average recomputed from member lines selected by name (differential oracle)",
             "All Z x {KA,KB,LA,LB, 7 doublets, KO, KP} energies and {KA,KB,LA} rates plus all 39 Siegbahn aliases are compared (1e-13) with the "
             "weighted/plain mean over members chosen by parsing line names; finite space, nothing sampled.",
